@@ -12,8 +12,23 @@ baseline is used and the correspondence check decides).
 """
 import ast, copy
 from common import *
+import failclosed
 
 SRC = 'oslo_utils/imageutils/format_inspector.py'
+# every function whose text is compared / read must be the one definition bound to its name, undecorated (but for `property`),
+# with the defaults the model was written for (tools/gen/failclosed.py)
+FAILCLOSED = {'generate': [{'src': SRC, 'mod': 'oslo_utils.imageutils.format_inspector',
+    'classes': {'InspectWrapper': {'bases': []}},
+    'functions': {'InspectWrapper.__init__': {'defaults': {'expected_format': 'None', 'allowed_formats': 'None'}},
+                  'InspectWrapper.__iter__': {'defaults': {}}, 'InspectWrapper._process_chunk': {'defaults': {}},
+                  'InspectWrapper.__next__': {'defaults': {}}, 'InspectWrapper.read': {'defaults': {}},
+                  'InspectWrapper._finish': {'defaults': {}}, 'InspectWrapper.close': {'defaults': {}},
+                  'InspectWrapper.formats': {'decorators': ['property'], 'defaults': {}},
+                  'InspectWrapper.format': {'decorators': ['property'], 'defaults': {}},
+                  'detect_file_format': {'defaults': {}}, '_chunked_reader': {'defaults': {'chunk_size': '512'}},
+                  'FileInspector.__str__': {'defaults': {}}},
+    # `str(x) == 'raw'` in formats: the model compares NAME, i.e. it transcribes FileInspector.__str__ (return self.NAME)
+    'shapes': {'FileInspector.__str__': ('08f40b2fdd063b1b', [])}}]}
 
 def _body(fn):
     b = fn.body
@@ -224,6 +239,7 @@ def _method(cls, name, prop=False):
     raise GenError('method %s not found' % name)
 
 def generate():
+    failclosed.check_all(FAILCLOSED['generate'])
     m = repo_import('oslo_utils.imageutils.format_inspector')
     tree = repo_ast(SRC)
     w = _cls(tree, 'InspectWrapper')
